@@ -48,11 +48,17 @@ def run(pid, replay=None):
             V.violation("msgid:" + what, "real MessageIDGen trace rejected by MsgIdProp at %s (previous %s)" % (json.dumps(bad), json.dumps(prev)),
                         {"kind": kind, "case": cases[tno], "trace": t, "rejected_event": bad})
         samples.append({"kind": kind, "case": cases[0], "trace": vlib.extract_trace(tf, 0)})
+    # connection level: msg id / seqno of every frame a real mtproto.Conn writes (requests, service messages, retries)
+    import c_conn
+    extra = c_conn.run_part(pid, V, work, replay)
+    acc += extra.get("traces", 0)
+    samples += extra.get("samples", [])
     cov = {"states": (mc.distinct if mc else 0) + (e.distinct if e else 0) + jst or 1,
            "transitions": (mc.generated if mc else 0) + (e.generated if e else 0) + jtr or 1,
            "traces_validated_against_impl": acc, "samples": samples,
-           "evaluations": len(edges) + len(paths), "distinct_nontrivial": len(edges) + len(paths),
+           "evaluations": len(edges) + len(paths) + extra.get("evaluations", 0), "distinct_nontrivial": len(edges) + len(paths) + extra.get("distinct", 0),
            "rule": "edges: distinct (generator nano, clock, delta) triples of the exhaustively explored MsgIdGen graph (3 calls, 14 clock deltas incl. "
-                   "freeze, +1..3 ns, backward jumps, second rollover); paths: TLC -simulate clock behaviours of 12 calls",
+                   "freeze, +1..3 ns, backward jumps, second rollover); paths: TLC -simulate clock behaviours of 12 calls; connection level: Salts/Ping scripts (requests, pings, acks, salt requests, "
+                   "bad-salt retries, clock advances) on a real mtproto.Conn, msg id / seqno of every written frame judged by ConnProp (Check=C08)",
            "exhaustive": not replay}
     return V.finish("model_checking", cov, ["MsgIdProp.tla is the verdict oracle", "times relative to a whole-second base"])
